@@ -93,6 +93,8 @@ func checkC13(c *Ctx, r *Result, tier string) {
 	c13Atomics(c, r, funcs)
 	c13SharedProvider(c, r)
 	c13PoolReleasedOnce(c, r, funcs)
+	r.Extra["objects_stored_into_shared_containers_under_a_lock"] = cPublishThenWrite(c, r, "R13f", NewLockFlows(c),
+		map[string]bool{"parser": true, "interpreter": true, "scope": true, "util": true, "stdlib": true, "engine": true, "engine/pool": true, "engine/pubsub": true, "cli/tool": true, "config": true})
 	for _, fn := range funcs {
 		perPkg[c.PkgOf(fn)]++
 		key := c.FuncKey(fn)
